@@ -16,6 +16,7 @@ import (
 	"math/rand"
 	"os"
 	"runtime"
+	"strings"
 	"sync"
 	"time"
 
@@ -50,9 +51,10 @@ var nonceSnap []byte
 
 // every number GenerateRandomNumber returned during the run (C09/C18: locally generated numbers differ from call to call)
 var (
-	randSeenMu sync.Mutex
-	randSeen   = map[string]bool{}
-	randDup    int
+	randSeenMu                 sync.Mutex
+	randSeen                   = map[string]bool{}
+	randDup                    int
+	sharedPeer, sharedPeerSnap *big.Int
 )
 
 func digest(v any) string {
@@ -272,12 +274,20 @@ func runOp(kind string, g int, seed int64, i int) (out string) {
 		t := dh.StrToType(dhNames[[]int{2, 14}[g%2]])
 		x := new(big.Int).SetBytes(fillPattern("seeded", 64, g))
 		y := new(big.Int).SetBytes(fillPattern("seeded", 64, g+50))
-		return digest(J{"pub": octOf(t.GetPublicValue(x)), "sh": octOf(t.GetSharedKey(x, new(big.Int).SetBytes(t.GetPublicValue(y))))})
+		// the peer's public value is one number all goroutines read (the same peer answering several exchanges): it is an input
+		sh2 := t.GetSharedKey(x, sharedPeer)
+		if sharedPeer.Cmp(sharedPeerSnap) != 0 {
+			return "absolute: the peer's public value (an input shared read-only) was changed by GetSharedKey"
+		}
+		return digest(J{"pub": octOf(t.GetPublicValue(x)), "sh": octOf(t.GetSharedKey(x, new(big.Int).SetBytes(t.GetPublicValue(y)))), "sh2": octOf(sh2)})
 	case "transforms":
 		var outs []any
 		for _, kd := range []string{"encr", "encrk", "integ", "integk", "prf", "dh"} {
 			for _, n := range []string{"aes-cbc-128", "aes-cbc-256", "md5", "sha1", "sha256", "modp-2", "modp-14"} {
 				o := actAlgToTransform(e, J{"kind": kd, "name": n})
+				if f, ok := o["fresh"].(bool); ok && !f {
+					return "absolute: " + kd + " " + n + ": a transform handed out earlier and edited by its owner came back when the same algorithm was asked for again"
+				}
 				if tr, ok := o["tr"].(J); ok {
 					o2 := actTransformToAlg(e, J{"kind": kd, "tr": jsonRound(tr), "wire": i%2 == 0})
 					outs = append(outs, o2["alg"])
@@ -458,6 +468,8 @@ func raceMain(argv []string) int {
 			J{"k": "N", "proto": 0, "ntype": 16388, "spi": Oct{}, "data": fillPattern("seeded", 20, 3)}}})
 		sharedWire, _ = m.Encode()
 		sharedSnap = append([]byte{}, sharedWire...)
+		sharedPeer = new(big.Int).SetBytes(dh.StrToType(dhNames[14]).GetPublicValue(new(big.Int).SetBytes(fillPattern("seeded", 64, 99))))
+		sharedPeerSnap = new(big.Int).Set(sharedPeer)
 		nonceArena = []byte(fillPattern("seeded", 64*64+64, 77))
 		nonceSnap = append([]byte{}, nonceArena...)
 	}
@@ -512,6 +524,13 @@ func raceMain(argv []string) int {
 						if len(res.Failures) < 50 {
 							res.Failures = append(res.Failures, J{"prop": "C18", "sig": "interference:" + ps.Programs[g][i], "what": what + " got " + clip(got[g][i]) + " want " + clip(ref[g][i]),
 								"replay": J{"fam": "race-set", "set": ps}})
+						}
+					}
+					for _, r := range []string{ref[g][i], got[g][i]} {
+						if strings.HasPrefix(r, "absolute: ") && len(res.Failures) < 50 {
+							res.Failures = append(res.Failures, J{"prop": "C18", "sig": "interference:shared-object:" + ps.Programs[g][i],
+								"what": fmt.Sprintf("goroutine %d op %d (%s) of set %s: %s", g, i, ps.Programs[g][i], ps.ID, r[10:]), "replay": J{"fam": "race-set", "set": ps}})
+							break
 						}
 					}
 					if len(ref[g][i]) > 5 && ref[g][i][:5] == "infra" {
